@@ -39,7 +39,7 @@ func storeWorker(w workerArgs, sum *Summary, start time.Time, deadline time.Time
 		}
 		rf := &props.ReplayFile{Property: "C04", Engine: "store", Violation: v, Store: c}
 		mc, mv, log := c, (*props.Violation)(nil), ""
-		if c.Warmup == 0 && c.History == nil && c.Scale == nil {
+		if c.Warmup == 0 && c.History == nil && c.Scale == nil && c.Deep == nil {
 			mc, mv, log = props.MinimiseStore(c, v)
 		}
 		if mv != nil {
@@ -68,6 +68,8 @@ func storeWorker(w workerArgs, sum *Summary, start time.Time, deadline time.Time
 			v, c = s.ShortBlocks(idx, thorough)
 		} else if w.part == "history" {
 			v, c = s.HistoryProbe(idx)
+		} else if w.part == "deep" {
+			v, c = s.DeepProbe(idx, thorough)
 		} else if w.part == "scale" {
 			v, c = s.ScaleProbe(w.seed, idx, thorough)
 		} else {
